@@ -269,8 +269,9 @@ PROPS["C18"]["level_text"] = PROPS["C18"]["level_text"] + (
 PROPS["C18"]["level_note"] = PROPS["C18"]["level_note"] + (
     " The stand-in twins c18.umask / c18.sizeof (replay/src/c18.rs) decide only blocks whose outcome the property statement determines: a parameter that is a "
     "known constant outside the warning range must not warn (whatever the analysis knows); a constant that reached the parameter through steps the value "
-    "analysis follows exactly (no multi-store loads) must warn. One open finding is recorded (known_findings.txt, class K1): a constant produced by an "
-    "IntAdd/IntSub/IntMult that overflows the signed range is lost by design of Interval::add/sub/signed_mul (Top on signed overflow), so the warning is missing.")
+    "analysis follows exactly (no multi-store loads) must warn. The stand-in found one defect on the pinned tree (class K1: a constant produced by an "
+    "IntAdd/IntSub/IntMult that overflows the signed range was lost, Interval::add/sub/signed_mul answering Top also for two constants, so the warning was missing) "
+    "-- repaired (fix: 1a158f4); a disagreement of that class is a plain violation again.")
 
 # ---- C25 (unit logcollect, round 3) ------------------------------------------------------------------------------
 TWINS["logcollect"] = [("collect_and_deduplicate", "c25.collect"), ("LogThread::collect", "c25.collect"), ("spawn", "c25.threads"),
